@@ -14,6 +14,8 @@ combined (`CanonSet`).  `denS s ver a` — address `a` of family `ver` is denote
 same denotation have the same members.
 -/
 import NetaddrVerif.Lemmas.IPSetL11
+import NetaddrVerif.Lemmas.IPSetIter1
+import NetaddrVerif.Lemmas.IPSetIter5
 namespace NV.C06
 open NV NV.IPSet
 
@@ -191,6 +193,97 @@ example : (Op.add 0 (.net ⟨4, 0x0a000005, 24⟩)).OK := by simp [Op.OK, ArgOK,
 example : (Op.bin 2 0 1 .sub).OK ∧ (Op.bin 2 0 1 .xor).OK := ⟨trivial, trivial⟩
 example : ∀ op ∈ [Op.newNet 0 ⟨4, 0x0a000005, 24⟩, Op.newRng 1 ⟨6, 1, 77⟩, Op.bin 2 0 1 .xor, Op.bin 3 2 0 .sub],
     op.OK := by simp [Op.OK, ArgOK, Net.WF, width]
+
+/-! ### `!=`, `repr()`, and iteration as observations of the same canonical content -/
+
+/-- `!=` is the negation of `==` (dict inequality), for any two states -/
+theorem ne_iff_not_eq (s t : St) : IPSet.ne s t = true ↔ ¬ (IPSet.eq s t = true) := by
+  unfold IPSet.ne; cases IPSet.eq s t <;> simp
+
+/-- hence `!=` is extensional too: True exactly when the two sets differ in some address -/
+theorem ne_iff (s t : St) (hs : Inv s) (ht : Inv t) :
+    IPSet.ne s t = true ↔ ¬ ∀ ver a, denS s ver a ↔ denS t ver a := by
+  rw [ne_iff_not_eq, eq_iff s t hs ht]
+
+/-- `repr()` lists, at value level, exactly what `iter_cidrs()` returns (both are
+    `sorted(self._cidrs)`), so `shown_canonical` / `shown_unique` / `shown_minimal` /
+    `shown_hostbit_free` speak about `repr()` as well -/
+theorem repr_shows (s : St) : reprSet s = iterCidrs s := rfl
+
+/-- the CIDR strings inside `repr()` are C03's `str()` of those blocks, in that order -/
+theorem repr_strs (be : AddrParse.Backend) (s : St) :
+    reprStrs be s = (iterCidrs s).map (NetParse.netStr be) := rfl
+
+/-- **same `repr()` iff equal**: for canonical sets the list of CIDR strings that `repr()` prints
+    (either back end of the address printer) coincides exactly when the sets compare equal, i.e.
+    exactly when they contain the same addresses.  `str()` is injective on in-range networks by
+    C03's round trip `IPNetwork(str(n)) = n`. -/
+theorem repr_eq_iff (be : AddrParse.Backend) (s t : St) (hs : Inv s) (ht : Inv t) :
+    (reprStrs be s = reprStrs be t ↔ IPSet.eq s t = true) ∧
+    (reprStrs be s = reprStrs be t ↔ ∀ ver a, denS s ver a ↔ denS t ver a) := by
+  have h : reprStrs be s = reprStrs be t ↔ IPSet.eq s t = true := by
+    rw [← Iter.reprSet_eq_iff s t hs ht]
+    constructor
+    · exact Iter.reprStrs_inj be s t (fun n hn => (hs.good n hn).1) (fun n hn => (ht.good n hn).1)
+    · intro e; unfold reprStrs; rw [e]
+  exact ⟨h, h.trans (eq_iff s t hs ht)⟩
+
+/-- the full text `IPSet(['…', '…'])` is a function of that list, so equal sets print the same text -/
+theorem repr_text_of_eq (be : AddrParse.Backend) (s t : St) (hs : Inv s) (ht : Inv t)
+    (h : IPSet.eq s t = true) : reprText be s = reprText be t := by
+  unfold reprText; rw [((repr_eq_iff be s t hs ht).1).2 h]
+
+/-- **same `repr()` text iff equal**: the complete text `IPSet(['a/p', 'b/q', …])` of two
+    canonical sets coincides exactly when they compare equal, i.e. contain the same addresses.
+    Besides C03's round trip this uses that a printed network consists of hex digits, `.`, `:`
+    and `/` only (`Iter.netStr_cidrCh`), so the quoted, comma-separated rendering can be split
+    back unambiguously (`Iter.reprText_inj`). -/
+theorem repr_text_eq_iff (be : AddrParse.Backend) (s t : St) (hs : Inv s) (ht : Inv t) :
+    (reprText be s = reprText be t ↔ IPSet.eq s t = true) ∧
+    (reprText be s = reprText be t ↔ ∀ ver a, denS s ver a ↔ denS t ver a) := by
+  have h : reprText be s = reprText be t ↔ IPSet.eq s t = true := by
+    constructor
+    · intro e
+      exact ((repr_eq_iff be s t hs ht).1).1
+        (Iter.reprText_inj be s t (fun n hn => (hs.good n hn).1) (fun n hn => (ht.good n hn).1) e)
+    · exact repr_text_of_eq be s t hs ht
+  exact ⟨h, h.trans (eq_iff s t hs ht)⟩
+
+/-- two histories denote the same addresses iff their results print the same CIDR strings -/
+theorem reachable_repr_iff (be : AddrParse.Backend) (ops₁ ops₂ : List Op)
+    (h₁ : ∀ op ∈ ops₁, op.OK) (h₂ : ∀ op ∈ ops₂, op.OK) (i j : Nat) :
+    reprStrs be (getSet (runOps ops₁) i) = reprStrs be (getSet (runOps ops₂) j) ↔
+      ∀ u a, (runBoth ops₁).2 i u a ↔ (runBoth ops₂).2 j u a := by
+  rw [(repr_eq_iff be _ _ (reachable ops₁ h₁ i).1 (reachable ops₂ h₂ j).1).1]
+  exact reachable_eq_iff ops₁ ops₂ h₁ h₂ i j
+
+/-- iteration enumerates the shown list block by block, each block from its first to its last
+    address; with `C07.iter_addrs_spec` this is the ascending duplicate-free enumeration of the
+    denoted addresses, and it is the same for any two sets with the same addresses -/
+theorem iter_shows (s : St) : iterAddrs s = (iterCidrs s).flatMap netAddrs := rfl
+
+theorem iter_unique (s t : St) (hs : Inv s) (ht : Inv t) (h : ∀ ver a, denS s ver a ↔ denS t ver a) :
+    iterAddrs s = iterAddrs t := by
+  unfold iterAddrs; rw [shown_unique s t hs ht h]
+
+/-- the hypotheses are satisfiable: two canonical sets (one of them holding both families) -/
+example : Inv (newOfNet ⟨4, 0x0a000005, 24⟩) ∧ Inv (addNet (newOfNet ⟨4, 0x0a000005, 24⟩) ⟨6, 1, 128⟩) := by
+  have h1 := (new_net_spec ⟨4, 0x0a000005, 24⟩ (by simp [Net.WF, width])).1
+  exact ⟨h1, (add_net_spec _ h1 ⟨6, 1, 128⟩ (by simp [Net.WF, width])).1⟩
+example : String.ofList (reprText .platform (addNet (newOfNet ⟨4, 0x0a000005, 24⟩) ⟨6, 1, 128⟩)) =
+    "IPSet(['10.0.0.0/24', '::1/128'])" := by
+  have e : addNet (newOfNet ⟨4, 0x0a000005, 24⟩) ⟨6, 1, 128⟩ = [⟨4, 0x0a000000, 24⟩, ⟨6, 1, 128⟩] := by decide +kernel
+  rw [e]; unfold reprText reprStrs reprSet
+  rw [show sortNets [⟨4, 0x0a000000, 24⟩, ⟨6, 1, 128⟩] = [⟨4, 0x0a000000, 24⟩, ⟨6, 1, 128⟩] from
+    iterCidrs_sorted _ (by decide +kernel)]
+  decide +kernel
+
+/-- instances: a set and the same set built in another order print the same; a different set does not -/
+example : reprStrs .platform [⟨4, 0x0a000000, 24⟩, ⟨6, 1, 128⟩] = reprStrs .platform [⟨6, 1, 128⟩, ⟨4, 0x0a000000, 24⟩] := by
+  unfold reprStrs reprSet
+  rw [NV.Contains.sortNets_perm_eq _ _ (List.Perm.swap ..)]
+example : IPSet.ne [⟨4, 0x0a000000, 24⟩] [⟨4, 0x0a000000, 25⟩] = true := by decide +kernel
+example : IPSet.ne [⟨4, 0x0a000000, 24⟩, ⟨6, 1, 128⟩] [⟨6, 1, 128⟩, ⟨4, 0x0a000000, 24⟩] = false := by decide +kernel
 
 /-! ### non-vacuity -/
 example : (⟨4, 0x0a000005, 24⟩ : Net).WF := by simp [Net.WF, width]
